@@ -241,7 +241,9 @@ def call_tps(x):
     return numpy.asarray(m), numpy.asarray(e)
 
 
-def check_tps(x, c=2.0):
+def check_tps(x, c=2.0, bins=None):
+    """`bins`: None = the definition at every returned bin (naive DFT, n^2 work); else the definition at these returned bins
+    only (long records: the naive transform of every bin is too slow) — Parseval, scaling, batch are evaluated in full"""
     out = []
     before = x.copy()
     m, e = call_tps(x)
@@ -258,14 +260,26 @@ def check_tps(x, c=2.0):
         return out + [("tps:shape", "mean spectrum has shape %s, expected %s for input %s" % (m.shape, want_shape, x.shape))]
     if m.size == 0:
         return out
-    ref, _ = naive_tps(x)
-    scale = float(numpy.abs(ref).max()) if ref.size else 0.0
     # float32 slopes are transformed in single precision by numpy.fft: 1e-4 (observed <= 2.6e-7 over 12 seeds); else 1e-9
     T9, T12 = (1e-4, 1e-4) if x.dtype == numpy.float32 else (1e-9, 1e-12)
-    if not numpy.all(numpy.abs(m - ref) <= T9 * scale):
-        idx = numpy.unravel_index(numpy.argmax(numpy.abs(m - ref)), m.shape)
-        out.append(("tps:def", "mean_tps%s=%r but mean over sub-apertures of |DFT|^2 is %r (input shape %s)"
-                    % (list(idx), float(m[idx]), float(ref[idx]), x.shape)))
+    if bins is None:
+        ref, _ = naive_tps(x)
+        scale = float(numpy.abs(ref).max()) if ref.size else 0.0
+        if not numpy.all(numpy.abs(m - ref) <= T9 * scale):
+            idx = numpy.unravel_index(numpy.argmax(numpy.abs(m - ref)), m.shape)
+            out.append(("tps:def", "mean_tps%s=%r but mean over sub-apertures of |DFT|^2 is %r (input shape %s)"
+                        % ([int(i) for i in idx], float(m[idx]), float(ref[idx]), x.shape)))
+    else:
+        # the sampled bins always include the bin where the returned spectrum is largest, so `scale` is the spectrum's maximum
+        # whenever the code is right
+        ks = sorted(set(int(k) for k in bins if 0 <= int(k) < n // 2) | {int(numpy.argmax(m.reshape(-1, n // 2).max(0)))})
+        refs = {k: (numpy.abs(dft_bin(x, k)) ** 2).mean(-1) for k in ks}
+        scale = max(float(numpy.abs(r).max()) for r in refs.values())
+        for k in ks:
+            if not numpy.all(numpy.abs(m[..., k] - refs[k]) <= T9 * scale):
+                out.append(("tps:def", "mean_tps[..., %d]=%r but mean over sub-apertures of |DFT|^2 is %r (input shape %s)"
+                            % (k, numpy.ravel(m[..., k])[0].item(), numpy.ravel(refs[k])[0].item(), x.shape)))
+                break
     # quadratic in amplitude
     m2, _ = call_tps(c * x)
     if not numpy.all(numpy.abs(m2 - c * c * m) <= T12 * max(c * c * float(numpy.abs(m).max()), 0.0)):
@@ -378,6 +392,36 @@ def gen_slopes(rng, big, n=None):
     if rng.random() < 0.2:                 # non-contiguous view of the same values
         x = numpy.moveaxis(numpy.ascontiguousarray(numpy.moveaxis(x, -1, -2)), -1, -2)
     return kind, x
+
+
+AMP_KINDS = ["random", "ramp", "xy", "few-hot"]
+
+
+def sub_amps(g, ns, akind):
+    """per-sub-aperture signal levels (illumination / x-vs-y differences: no two sub-apertures of a real WFS see the same power)"""
+    if akind == "random":
+        return 10 ** g.uniform(-1, 1, ns)
+    if akind == "ramp":
+        return numpy.linspace(0.5, 5.0, ns)
+    if akind == "xy":              # all X slopes first, then all Y slopes (the documented layout), different power in the two halves
+        a, b = g.uniform(0.5, 5.0, 2)
+        return numpy.where(numpy.arange(ns) < ns // 2, a, b)
+    if akind == "few-hot":         # a handful of sub-apertures carries nearly all the power
+        A = numpy.full(ns, 0.1)
+        A[g.choice(ns, size=max(1, min(ns, 1 + ns // 50)), replace=False)] = 10.0
+        return A
+    raise ValueError(akind)
+
+
+def make_slopes(seed, lead, n, ns, akind, kind):
+    """slopes of shape lead + (n, ns), reproducible from the replay record: unit noise (Gaussian, or integers -9..9) times
+    the per-sub-aperture level"""
+    g = numpy.random.default_rng(seed)
+    A = sub_amps(g, ns, akind)
+    shape = tuple(lead) + (n, ns)
+    if kind == "int":
+        return g.integers(-9, 10, size=shape).astype(float) * numpy.rint(2 * A)
+    return g.standard_normal(shape) * A
 
 
 # ------------------------------------------------------------------------------------------------ correspondence
@@ -603,6 +647,47 @@ def oracle(chk, n_sf, n_tps, big):
         nfr = rng.randint(1, 200)
         report(check_axis, (fr, nfr), {"fn": "axis", "frame_rate": fr, "n_frames": nfr})
 
+    # MANY sub-apertures (a 40x40 Shack-Hartmann has 2480 slopes) with unequal signal levels, and LONG records (thousands of
+    # frames, odd counts): the definition counts every sub-aperture once and every frame once however many there are
+    n_wide, n_long = (10, 6) if not big else (150, 60)
+    WIDE_FIRST = [300, 632, 2480]
+    LONG_FIRST = [4096, 4095, 2049]
+    for it in range(n_wide + n_long):
+        chk.oracle_cases += 1
+        wide = it < n_wide
+        if wide:
+            ns = WIDE_FIRST[it] if it < len(WIDE_FIRST) else rng.choice([256, 257, 511, 513, 1024, 3000, rng.randint(257, 3000),
+                                                                         rng.randint(257, 3000), rng.randint(257, 700)])
+            n = rng.randint(2, 48) if it % 4 else rng.choice(ROUGH_N[:6])
+            lead = rng.choice([(), (), (2,)])
+            bins = None
+        else:
+            j = it - n_wide
+            n = LONG_FIRST[j] if j < len(LONG_FIRST) else rng.randint(200, 4096)
+            if j >= len(LONG_FIRST) and j % 2:
+                n |= 1                                     # odd frame counts
+            ns = 300 if j == 3 else rng.randint(1, 6)
+            lead = () if j % 3 else (2,)
+            bins = [0, 1, n // 2 - 1] + [rng.randrange(n // 2) for _ in range(8)]
+        akind, kind = rng.choice(AMP_KINDS), rng.choice(["float", "float", "int"])
+        seed = rng.getrandbits(32)
+        c = rng.choice([2.0, -3.0, 0.5, 1.25])
+        x = make_slopes(seed, lead, n, ns, akind, kind)
+        chk.count("tps:many-subaps" if wide else "tps:long-record")
+        chk.count("tps:levels=%s" % akind)
+        chk.count("tps:n_frames-%s" % ("even" if n % 2 == 0 else "odd"))
+        chk.case(("tps-gen", it, x.shape, akind, kind, seed), sample={"shape": x.shape, "levels": akind, "kind": kind} if it in (0, n_wide) else None)
+        report(check_tps, (x, c, bins), {"fn": "tps_gen", "seed": seed, "lead": list(lead), "n": n, "ns": ns, "levels": akind,
+                                         "kind": kind, "c": c, "bins": bins})
+        # the sinusoid clause on the same sizes: P[k0] = n^2/4 * mean over ALL sub-apertures of A_s^2
+        g = numpy.random.default_rng(seed ^ 0x5A5A)
+        amps = sub_amps(g, ns, akind).tolist()
+        phis = g.uniform(0, 2 * math.pi, ns).tolist()
+        if n >= 4:
+            k0 = rng.randint(1, n // 2 - 1)
+            report(check_tps_sinusoid, (lead, n, ns, k0, amps, phis),
+                   {"fn": "tps_sinusoid", "lead": list(lead), "n": n, "ns": ns, "k0": k0, "amps": amps, "phis": phis})
+
 
 def replay(rec):
     """re-evaluate the recorded failing input on the real code"""
@@ -636,6 +721,8 @@ def _replay_eval(fn, r):
         fails = check_sf_screens(tuple(r["cfg"][:6]) + (tuple(r["cfg"][6]),), r["seeds"])[0]
     elif fn == "tps":
         fails = check_tps(numpy.array(r["x"], dtype=r.get("dtype", "float64")), r["c"])
+    elif fn == "tps_gen":
+        fails = check_tps(make_slopes(r["seed"], tuple(r["lead"]), r["n"], r["ns"], r["levels"], r["kind"]), r["c"], r.get("bins"))
     elif fn == "tps_sinusoid":
         fails = check_tps_sinusoid(tuple(r["lead"]), r["n"], r["ns"], r["k0"], r["amps"], r["phis"])
     elif fn == "axis":
@@ -651,7 +738,8 @@ def run(chk):
                 "Gaussian phases), output length exact, frequency axis bit-exact, spectra |impl-model| <= 1e-9*max|spectrum| (FFT vs "
                 "naive DFT); oracle on the real code with a poisoned heap: lag 0 == 0, lag j == exact rational mean squared difference, "
                 "ramp a^2 (j step)^2 to 2 ulp (dyadic a, pistons up to 1e9), piston invariance, documented output length, quadratic scaling 1e-12, |DFT|^2 mean 1e-9, Parseval 1e-9, sinusoid bin, "
-                "axis 1e-12, batch independence, no input mutation, repeatability; distinct = distinct generated inputs")
+                "axis 1e-12, batch independence, no input mutation, repeatability; the spectrum clauses also on 257..3000 sub-apertures with "
+                "unequal signal levels and on records of up to 4096 frames (definition at sampled bins there); distinct = distinct generated inputs")
     chk.assumptions = [
         "numpy.fft.fft is modelled by the naive DFT sum (agreement checked numerically on every generated instance; n_frames <= 16 (quick) / 32 (thorough) in the driver)",
         "numpy.empty is modelled as an arbitrary initial buffer u; numpy.zeros as the all-zero buffer",
